@@ -38,7 +38,19 @@ DYN = ['x', 's', 'xs', 'top.cnt', '(do (print "p") 3)', '(do (step) 0)', '(do (s
 
 def gen_sensitive(rng):
     """shapes on which the rewrites decide: literal conditions, literal prefixes followed by run-time operands"""
-    k = rng.choice(['if', 'if', '+', '+', '*', '&&', '||', 'do', 'nest'])
+    k = rng.choice(['if', 'if', '+', '+', '*', '&&', '||', 'do', 'nest', 'ifbool', 'fsum'])
+    if k == 'ifbool':
+        # the branches are the two booleans (or 1/0) and the condition is a run-time value that is not itself a boolean
+        c = rng.choice(DYN + ['x', 's', 'xs', 'top.cnt', '(+ x 2)', '(list)', '""', '(do (set [y 7]))'])
+        a, b = rng.choice([('#t', '#f'), ('#f', '#t'), ('1', '0'), ('#t', '#f')])
+        return rng.choice([f'(if {c} {a} {b})', f'(print (if {c} {a} {b}))', f'(list (if {c} {a} {b}) (if {c} {a}))'])
+    if k == 'fsum':
+        # sums / products of three and more float literals: folding must round exactly as the evaluation does
+        fl = ['0.1', '0.2', '0.3', '0.7', '1.5', '-0.1', '10000000000000000.0', '-10000000000000000.0', '1.0', '3', '0.000001', '123456.789']
+        args = [rng.choice(fl) for _ in range(rng.randint(3, 6))]
+        if rng.random() < 0.3:
+            args.insert(rng.randrange(len(args) + 1), rng.choice(['x', '(do (print "p") 0.2)']))
+        return f'({rng.choice(["+", "+", "*"])} ' + ' '.join(args) + ')'
     if k == 'if':
         c = rng.choice(LITS + ['(+ "" "")', '(do "")', '(+ 0 0)', '(* 1 0.0)', '(&& 1 "")'])
         br = [rng.choice(DYN + LITS) for _ in range(rng.choice([1, 2, 2]))]
